@@ -1103,10 +1103,8 @@ impl ContinuityStreamCache {
 
         // Determine the cut point `from_seq` as: (seq before the next message) or head_seq.
         // Use the full sidecar's head seq when available so `from_seq` matches the truth stream.
-        let head_seq = self
-            .try_read_last_seq(continuity_id)
-            .ok()
-            .flatten()
+        let full_head_seq = self.try_read_last_seq(continuity_id).ok().flatten();
+        let head_seq = full_head_seq
             .or_else(|| {
                 self.try_read_last_seq_messages_runs_v1(continuity_id)
                     .ok()
@@ -1174,6 +1172,9 @@ impl ContinuityStreamCache {
 
         let from_seq = match next_message_seq {
             Some(seq) => seq.saturating_sub(1).max(anchor_seq),
+            // The anchor is the newest message: the cut point is the head of the truth stream,
+            // which the mr sidecar does not know (it omits non-message frames).
+            _ if full_head_seq.is_none() => return Ok(None),
             _ => head_seq.max(anchor_seq),
         };
 
